@@ -37,7 +37,7 @@ THEOREMS = [P + t for t in (
     "get_mpo_tensor_spec", "transforms_stored_independently", "caps_wiring_consistent", "caps_close_transformed",
     "caps_fixed_point", "caps_fixed_point_joint",
     "dynamics_eq_joint", "finite_pt_last_bond", "dynamics_eq_joint_finite", "skip_trivial",
-    "caches_safe", "get_is_function_of_current", "stored_is_last_set", "history_independent",
+    "caches_safe", "caps_flags_safe", "caps_are_function_of_current", "get_is_function_of_current", "stored_is_last_set", "history_independent",
     "sum_of_baths_infl", "sum_of_baths_entry", "sum_of_baths_tables", "combined_dense",
     "sum_of_baths_dense", "sum_of_baths",
 )]
@@ -50,6 +50,7 @@ KEY_TIME_CONTROLS = "controls:float-time controls with start_time != 0"
 KEY_HISTORY = "history:%sProcessTensor:set_mpo_tensor after the step was read"
 KEY_ONE_TRANSFORM = "transforms:%sProcessTensor:exactly one transform (%s only)"
 KEY_LAYOUT = "layout:%s(initial_state):%s"
+KEY_CAPS_STALE = "caps:%sProcessTensor:compute_caps after overwriting an existing step"
 KEY_STACK = "controls:float-time controls of one step added in non-chronological order"
 KEY_FINAL_ONLY = "controls:post-measurement controls with record_all=False"
 
@@ -516,6 +517,65 @@ def expected_mpo(raw, tin, tout):
     return t
 
 
+def numpy_caps(mpos, tin, tout, d):
+    """caps of a list of stored tensors (numpy, independent): close the transformed tensors with
+    identity/sqrt(d) on both system legs, backwards from [1]"""
+    tr = np.eye(d).reshape(-1) / np.sqrt(d)
+    caps = [np.array([1.0 + 0j])]
+    for m in reversed(mpos):
+        caps.insert(0, np.einsum("bcio,c,i,o->b", expected_mpo(m, tin, tout), caps[0], tr, tr))
+    return caps
+
+
+def caps_trace(rng, cls):
+    """history of tensor writes (set_mpo_tensor on EXISTING steps too) and compute_caps() calls on a
+    real object; an answer is the version of the tensor list whose caps the object holds after
+    compute_caps().  Returns (driver line, real answers, desc)."""
+    d, L = 2, 4
+    form = rng.choice(["rank3", "rank4", "rank4-t"])
+    n = rng.randrange(2, 4)
+    dims = [1] + [rng.randrange(1, 3) for _ in range(n - 1)] + [1]
+    tin = tout = None
+    if form.endswith("-t"):
+        tin, tout = dyadic(rng, (L, L), den=2, span=2), dyadic(rng, (L, L), den=2, span=2)
+
+    def rand_t(k):
+        shp = (dims[k], dims[k + 1], L) if form == "rank3" else (dims[k], dims[k + 1], L, L)
+        return dyadic(rng, shp, den=2, span=2)
+    spec = {"kind": form, "mpos": [rand_t(k) for k in range(n)], "tin": tin, "tout": tout}
+    pt = build_pt(spec, d, n, cls)             # version 1, compute_caps() done
+    versions = [(1, numpy_caps(spec["mpos"], tin, tout, d))]
+    cur = list(spec["mpos"])
+    ops, answers = ["s 0 1", "g 0"], ["-"]
+    try:
+        def read():
+            got = [np.asarray(pt.get_cap_tensor(k)).reshape(-1) for k in range(n + 1)]
+            ans = "?"
+            for vid, caps in versions:
+                if all(a.shape == b.shape and np.abs(a - b).max() < 1e-9 * max(1.0, np.abs(b).max())
+                       for a, b in zip(got, caps)):
+                    ans = str(vid)
+            return ans
+        answers.append(read())
+        for _ in range(rng.randrange(2, 6)):
+            if rng.random() < 0.55:
+                k = rng.randrange(n)            # overwrite an existing step
+                cur[k] = rand_t(k)
+                pt.set_mpo_tensor(k, np.array(cur[k], dtype=complex))
+                vid = len(versions) + 1
+                versions.append((vid, numpy_caps(cur, tin, tout, d)))
+                ops.append("s 0 %d" % vid)
+                answers.append("-")
+            else:
+                pt.compute_caps()
+                ops.append("g 0")
+                answers.append(read())
+    finally:
+        drop_pt(pt)
+    desc = {"class": cls, "kind": "capsflag", "form": form, "dims": dims, "ops": " | ".join(ops)}
+    return "hist %s capsflag | %s" % (cls, " | ".join(ops)), " ".join(answers), desc
+
+
 def history_trace(rng, cls, kind):
     """random set_*/get_* history on a real object; returns (driver line, real answers, desc).
     Every stored tensor is a distinct random `version`; an answer is the version whose image
@@ -743,6 +803,12 @@ def correspondence(res, tier, rng):
         checks.append((len(lines), "hist", (desc, answers)))
         lines.append(line)
         res.count("history-trace:%s:%s" % (cls, kind))
+    for c in range(6 if tier == "quick" else 40):
+        cls = "simple" if c % 3 else "file"
+        line, answers, desc = caps_trace(rng, cls)
+        checks.append((len(lines), "hist", (desc, answers)))
+        lines.append(line)
+        res.count("history-trace:%s:capsflag" % cls)
 
     out = fw.run_driver(PID, lines)
     if len(out) != len(lines):
@@ -986,6 +1052,43 @@ def oracle_layout(res, gen_seed, key=None, only=None):
     return found
 
 
+def oracle_caps_gauge(res, gen_seed, cls, key=None):
+    """build an ancilla process tensor (compute_caps), overwrite two EXISTING neighbouring steps with
+    a gauge change on the bond between them (T_{j-1} -> T_{j-1} G, T_j -> G^{-1} T_j: the same
+    process, other caps), compute_caps() again, contract with record_all=True: must still be the
+    traced joint evolution at every step"""
+    rng = random.Random(gen_seed)
+    case = ancilla_case(rng, "rank4", cls, n=rng.randrange(2, 4), e=2)
+    n = case["n"]
+    j = rng.randrange(1, n)
+    E = case["spec"]["mpos"][j].shape[0]
+    g = np.array([[rng.gauss(0, 1) + 1j * rng.gauss(0, 1) for _ in range(E)] for _ in range(E)]) \
+        + 2.0 * np.eye(E)
+    pt = build_pt(case["spec"], case["d"], n, cls)
+    try:
+        pt.set_mpo_tensor(j - 1, np.einsum("bcio,cd->bdio", case["spec"]["mpos"][j - 1], g))
+        pt.set_mpo_tensor(j, np.einsum("bc,cdio->bdio", np.linalg.inv(g), case["spec"]["mpos"][j]))
+        pt.compute_caps()
+        import oqupy
+        real = run_real(oqupy.System(case["ham"]), case["rho0"], [pt], n, case["control"])
+    finally:
+        drop_pt(pt)
+    ref = dense_joint(case["kraus"], case["rhoE"], case["rho0"], case["ham"], case["ctrl_ops"], n,
+                      case["e"], case["d"])
+    err = max(np.abs(a - b).max() for a, b in zip(real, ref))
+    if not err <= ANCILLA_TOL:
+        steps = [int(k) for k in range(len(ref)) if np.abs(real[k] - ref[k]).max() > ANCILLA_TOL]
+        res.fail(key or KEY_CAPS_STALE % cls.capitalize(),
+                 {"oracle": "caps-gauge", "gen_seed": gen_seed, "class": cls, "bond": j,
+                  "case": case["desc"], "max_state_difference": float(err), "steps_that_differ": steps,
+                  "how": "%sProcessTensor: build + compute_caps(), then set_mpo_tensor(%d, T G) and "
+                         "set_mpo_tensor(%d, G^-1 T) (gauge change of one bond), compute_caps() again, "
+                         "compute_dynamics(record_all=True): states differ from the traced joint "
+                         "evolution at step(s) %s" % (cls.capitalize(), j - 1, j, steps)})
+        return True
+    return False
+
+
 def oracle_history(res, gen_seed, variant, cls, key=None):
     """contract an ancilla process tensor, overwrite one step with the tensor of another joint map
     (set_mpo_tensor, compute_caps), contract again: must be the joint evolution with the new map
@@ -1122,6 +1225,11 @@ def search(res):
         for t in range(4):
             if oracle_ancilla(res, rng.randrange(10 ** 9), rng.choice(["rank4", "rank3"]), "simple", **kw):
                 break
+    # compute_caps() again after overwriting existing steps (gauge change: same process, other caps)
+    for cls in ("simple", "file"):
+        for t in range(2):
+            if oracle_caps_gauge(res, rng.randrange(10 ** 9), cls):
+                break
     # mutable-object history: overwrite a step after it was read
     for variant in ("rank3", "rank4-basis", "rank3-pauli", "rank4"):
         for cls in ("simple", "file"):
@@ -1143,6 +1251,8 @@ def replay_case(res, payload):
                               stacked=fi.get("stacked", False), final_only=fi.get("final_only", False))
     if fi.get("oracle") == "history":
         return oracle_history(res, fi["gen_seed"], fi["variant"], fi["class"], key)
+    if fi.get("oracle") == "caps-gauge":
+        return oracle_caps_gauge(res, fi["gen_seed"], fi["class"], key)
     if fi.get("oracle") == "layout":
         return oracle_layout(res, fi["gen_seed"], key, only=(fi["entry_point"], fi["layout"]))
     return False
@@ -1169,7 +1279,8 @@ def run(tier, seed, replay):
         "step (set_mpo_tensor + compute_caps) -> contract again vs a fresh object with the same stored "
         "tensors (1e-12), and random set_*/get_* call traces (Simple, File; mpo, cap) vs objTrace "
         "with the regenerated memoisation wiring, exactly (which stored version each call answers "
-        "with).  Non-trivial = at least one environment; distinct = distinct case.")
+        "with); the same for histories of tensor writes on existing steps and compute_caps() calls "
+        "(which version of the tensor list the caps belong to).  Non-trivial = at least one environment; distinct = distinct case.")
     res.assumptions = [
         "tensornetwork contracts exactly the edges that were joined with `^` (edge identity, not axis "
         "position) and `@` contracts all shared edges",
